@@ -386,3 +386,12 @@ PLAN["C17"]["thorough"]["tests"].append({"run": "TestC17Faults", "shards": 4, "c
 PLAN["C17"]["rule"] += ("; TestC17Faults: set-rebuilding (on/off) in a victim process with one file-system call failing (strace, as in C08) followed by a normal close: "
                         "a request that reported failure leaves the persisted rebuilding flag - which decides the replica's state and its accepted actions after a restart - as it was")
 PLAN["C08"]["rule"] += "; the rebuilding flag volume.meta persists is part of the compared state; plain opens of existing files are fault points (EIO)"
+
+PLAN["C02"]["quick"]["tests"][0]["shards"] = 12
+PLAN["C02"]["quick"]["tests"].append({"run": "TestC02Restart", "shards": 4, "checks": 30, "timeout": 130})
+PLAN["C02"]["thorough"]["tests"][0]["shards"] = 12
+PLAN["C02"]["thorough"]["tests"].append({"run": "TestC02Restart", "shards": 4, "checks": 700, "timeout": 840})
+PLAN["C02"]["rule"] += ("; a third of the injected failures are 'diskerr': the replica's own write to its head file fails (its descriptor is swapped for a read-only one during the call), so the failure "
+                        "happens inside Replica.WriteAt; TestC02Restart: after such a history every replica stops (cleanly or abandoned), the controller restarts, replicas register in a generated order "
+                        "and the restarted volume must serve every acknowledged write")
+HOOK_COMMITS.append("346214a")
